@@ -258,7 +258,7 @@ pub fn install_panic_hook() {
             .location()
             .map(|l| format!("{}:{}", l.file(), l.line()))
             .unwrap_or_default();
-        LAST_PANIC.with(|p| *p.borrow_mut() = format!("{msg} @ {loc}"));
+        let _ = LAST_PANIC.try_with(|p| *p.borrow_mut() = format!("{msg} @ {loc}"));
         if QUIET.with(|q| q.get()) == 0 {
             default(info);
         }
@@ -273,7 +273,7 @@ pub fn catch<R>(f: impl FnOnce() -> R) -> Result<R, String> {
     match r {
         Ok(v) => Ok(v),
         Err(_) => {
-            let m = LAST_PANIC.with(|p| p.borrow().clone());
+            let m = LAST_PANIC.try_with(|p| p.borrow().clone()).unwrap_or_else(|_| "panic (message not recorded: the thread is shutting down)".to_string());
             if m.contains(crate::rat::RAT_OVERFLOW) {
                 // machinery error inside a caught region: re-raise loudly
                 panic!("{m}");
@@ -336,7 +336,7 @@ where
                         results.lock().unwrap()[i] = Some(out);
                     }
                     Err(_) => {
-                        let m = LAST_PANIC.with(|p| p.borrow().clone());
+                        let m = LAST_PANIC.try_with(|p| p.borrow().clone()).unwrap_or_else(|_| "panic (message not recorded: the thread is shutting down)".to_string());
                         *failed.lock().unwrap() = Some(format!(
                             "engine panic in job {} ({}): {}",
                             i,
@@ -804,7 +804,7 @@ pub fn main_with(id: &'static str, body: fn(&Ctx) -> (Summary, Meta)) -> ! {
     match r {
         Ok(code) => std::process::exit(code),
         Err(_) => {
-            let m = LAST_PANIC.with(|p| p.borrow().clone());
+            let m = LAST_PANIC.try_with(|p| p.borrow().clone()).unwrap_or_else(|_| "panic (message not recorded: the thread is shutting down)".to_string());
             eprintln!("MACHINERY-ERROR property={id} {m}");
             std::process::exit(2)
         }
@@ -820,7 +820,7 @@ pub fn try_exact<R>(f: impl FnOnce() -> R) -> Option<R> {
     match r {
         Ok(v) => Some(v),
         Err(p) => {
-            let m = LAST_PANIC.with(|p| p.borrow().clone());
+            let m = LAST_PANIC.try_with(|p| p.borrow().clone()).unwrap_or_else(|_| "panic (message not recorded: the thread is shutting down)".to_string());
             if m.contains(crate::rat::RAT_OVERFLOW) {
                 None
             } else {
